@@ -84,6 +84,10 @@ var targets = []target{
 	{"pkg/sessions/persistence/ticket.go", "encodeTicket", "ticket", "id:str,secret:str"},
 	{"pkg/sessions/persistence/ticket.go", "decodeTicketID", "", ""},
 	{"pkg/sessions/persistence/ticket.go", "decodeTicketSecret", "", ""},
+	{"pkg/app/redirect/director.go", "validateRedirect", "appDirector", "validator:strs"},
+	{"pkg/app/redirect/director.go", "hasProxyPrefix", "appDirector", "proxyPrefix:str"},
+	{"pkg/app/redirect/getters.go", "getXForwardedHeadersRedirect", "appDirector", "validator:strs,proxyPrefix:str"},
+	{"pkg/app/redirect/getters.go", "getURIRedirect", "appDirector", "validator:strs,proxyPrefix:str"},
 	{"pkg/cookies/csrf.go", "HashOAuthState", "csrf", "OAuthState:optstr"},
 	{"pkg/cookies/csrf.go", "HashOIDCNonce", "csrf", "OIDCNonce:optstr"},
 	{"pkg/cookies/csrf.go", "CheckOAuthState", "csrf", "OAuthState:optstr"},
@@ -296,17 +300,19 @@ type tr struct {
 	consts map[string]string // package-level string/int constants: name -> Lean term
 	ckinds map[string]string
 	// per function
-	kinds      map[string]string
-	named      []string // named results
-	results    []string
-	loopRet    int               // >0 inside a forRange body
-	rawOpt     bool              // pass an optional byte slice on as it is (argument of a translated function that takes one)
-	breakFlag  []string          // per enclosing loop: the carried flag that encodes `break` ("" if the loop has none)
-	recvFields map[string]string // "recv.field" -> kind
-	mutable    map[string]bool   // variables that are assigned after their declaration
-	loopSt     []string          // "" for a stateless loop body, else the Lean tuple of the loop-carried variables
-	tmp        int
-	warnings   []string
+	kinds        map[string]string
+	named        []string // named results
+	results      []string
+	loopRet      int                 // >0 inside a forRange body
+	rawOpt       bool                // pass an optional byte slice on as it is (argument of a translated function that takes one)
+	recvName     string              // the receiver's name in the function being translated
+	methodFields map[string][]string // translated methods -> the receiver fields they take, in order
+	breakFlag    []string            // per enclosing loop: the carried flag that encodes `break` ("" if the loop has none)
+	recvFields   map[string]string   // "recv.field" -> kind
+	mutable      map[string]bool     // variables that are assigned after their declaration
+	loopSt       []string            // "" for a stateless loop body, else the Lean tuple of the loop-carried variables
+	tmp          int
+	warnings     []string
 }
 
 var leanKeywords = map[string]bool{"end": true, "at": true, "from": true, "have": true, "show": true, "then": true, "else": true,
@@ -769,6 +775,46 @@ func (t *tr) call(x *ast.CallExpr) (string, string) {
 	if strings.HasSuffix(fn, ".Clock.Now") {
 		return "E.nowNs", kTime // the session's clock is the wall clock outside tests
 	}
+	// the director's validator is the redirect validator built from the whitelist: a.validator.IsValidRedirect(x)
+	if sel, ok := x.Fun.(*ast.SelectorExpr); ok && sel.Sel.Name == "IsValidRedirect" {
+		if inner, ok := sel.X.(*ast.SelectorExpr); ok {
+			if id, ok := inner.X.(*ast.Ident); ok {
+				if k, ok := t.recvFields[id.Name+"."+inner.Sel.Name]; ok && k == kStrs {
+					return "(← IsValidRedirect E " + ident(id.Name+"_"+inner.Sel.Name) + " " + a()[0] + ")", kBool
+				}
+			}
+		}
+	}
+	// a method of the same receiver that is translated too: a.m(args) — the callee's receiver fields are passed on by name
+	if sel, ok := x.Fun.(*ast.SelectorExpr); ok {
+		if id, ok := sel.X.(*ast.Ident); ok && t.recvName == id.Name {
+			if callee, ok := t.methodFields[sel.Sel.Name]; ok {
+				var as []string
+				for _, f := range callee {
+					if _, have := t.recvFields[id.Name+"."+f]; !have {
+						fail("call of %s needs the receiver field %s, which this function does not declare", sel.Sel.Name, f)
+					}
+					as = append(as, ident(id.Name+"_"+f))
+				}
+				sg := t.sigs[sel.Sel.Name]
+				for i, arg := range x.Args {
+					if i < len(sg.params) && sg.params[i] == kStr {
+						if bl, ok := arg.(*ast.BasicLit); ok && bl.Kind == token.STRING && strings.Contains(bl.Value, "%s") {
+							as = append(as, "([] : Str)") // a log format: not part of the result
+							continue
+						}
+					}
+					c, _ := t.expr(arg)
+					as = append(as, atom(c))
+				}
+				k := "tuple:" + strings.Join(sg.results, ",")
+				if len(sg.results) == 1 {
+					k = sg.results[0]
+				}
+				return "(← " + sel.Sel.Name + " E " + strings.Join(as, " ") + ")", k
+			}
+		}
+	}
 	// reads of the request
 	if sel, ok := x.Fun.(*ast.SelectorExpr); ok {
 		if inner, ok := sel.X.(*ast.SelectorExpr); ok {
@@ -981,8 +1027,12 @@ func (t *tr) block(o *out, ind int, stmts []ast.Stmt) {
 		o.add(ind, "pure ()")
 		return
 	}
+	before := len(o.lines)
 	for _, s := range stmts {
 		t.stmt(o, ind, s)
+	}
+	if len(o.lines) == before {
+		o.add(ind, "pure ()") // only statements without an effect on the result (logging)
 	}
 }
 
@@ -1659,6 +1709,18 @@ func main() {
 			t.sigs[tg.name] = sg
 		}
 	}
+	t.methodFields = map[string][]string{}
+	for _, tg := range targets {
+		if tg.recv != "" {
+			var fs []string
+			for _, fk := range strings.Split(tg.recvFields, ",") {
+				if fk != "" {
+					fs = append(fs, strings.SplitN(fk, ":", 2)[0])
+				}
+			}
+			t.methodFields[tg.name] = fs
+		}
+	}
 	var body []string
 	var names []string
 	for _, tg := range targets {
@@ -1686,8 +1748,10 @@ func main() {
 		}
 		var ps []string
 		t.recvFields = map[string]string{}
+		t.recvName = ""
 		if tg.recv != "" && fd.Recv != nil && len(fd.Recv.List) == 1 && len(fd.Recv.List[0].Names) == 1 {
 			rn := fd.Recv.List[0].Names[0].Name
+			t.recvName = rn
 			for _, fk := range strings.Split(tg.recvFields, ",") {
 				if fk == "" {
 					continue
